@@ -204,6 +204,12 @@ impl Ctx {
     }
 }
 
+/// seed of a proptest runner for (VERIF_SEED, stream, worker): hashed, so that small seeds do
+/// not merely permute the workers
+pub fn runner_seed(seed: u64, stream: u64, worker: u64) -> u64 {
+    hash_of(&(seed, stream, worker, 0x7665_7269_66u64))
+}
+
 pub fn make_rng(seed: u64, stream: u64, worker: u64) -> TestRng {
     let mut b = [0u8; 32];
     b[0..8].copy_from_slice(&seed.to_le_bytes());
